@@ -48,8 +48,9 @@ SHARD = 80
 DRIVER_TIMEOUT = 1500
 COQ_FILES = ["theories/C07/Props.v", "theories/C07/Link.v", "theories/C07/Proofs.v",
              "theories/C07/ProofsA.v", "theories/C07/ProofsB.v", "theories/C07/ProofsC.v", "theories/C07/ProofsD.v",
-             "theories/C07/Explore.v", "theories/C07/Tests.v"]
-COQ_TARGETS = ["theories/C07/Props.v", "theories/C07/Link.v", "theories/C07/Exec.v"]
+             "theories/C07/ProofsE.v", "theories/C07/Explore.v", "theories/C07/Tests.v", "theories/C07/ExploreTests.v"]
+# ExploreTests.v (exhaustive small-bound explorations, ~40 s) is built but kept out of Props.v's cone
+COQ_TARGETS = ["theories/C07/Props.v", "theories/C07/Link.v", "theories/C07/ExploreTests.v", "theories/C07/Exec.v"]
 RULE = ("scripts for MapReduce/MapReduceChan/MapReduceVoid/ForEach/Finish/FinishVoid: 0-20 items (64 in the big "
         "class), workers in {-1,0,1,2,3,4,8,default}, per-item mapper scripts of write/cancel(err|nil)/panic/"
         "wait-for-return/cancel-context actions, reducer = receive all or j values then write 0-2 times or panic, "
